@@ -25,6 +25,7 @@ type HarnessSpec struct {
 	Labels  []string // labels that must be reached (vacuity guard)
 	Quick, Thorough TierOpts
 	Twin    bool // reachability twin: must produce a violation
+	Race    bool // native replay under the Go race detector (-race)
 }
 
 type TierOpts struct {
@@ -157,6 +158,8 @@ type nativeRunner struct {
 	pkg      string
 	workDir  string
 	bin      string
+	race     bool
+	seq      int
 	buildErr string
 	buildS   float64
 }
@@ -218,7 +221,12 @@ func (nr *nativeRunner) build(prog *Program, harnesses []string) error {
 		return err
 	}
 	nr.bin = filepath.Join(wd, "replay.test")
-	cmd := exec.Command("go", "test", "-c", "-vet=off", "-tags", "verifnative", "-overlay", ovf, "-o", nr.bin, nr.pkg)
+	args := []string{"test", "-c", "-vet=off", "-tags", "verifnative", "-overlay", ovf, "-o", nr.bin}
+	if nr.race {
+		args = append(args, "-race")
+	}
+	args = append(args, nr.pkg)
+	cmd := exec.Command("go", args...)
 	cmd.Dir = nr.modDir
 	cmd.Env = append(os.Environ(), "GOFLAGS=-mod=mod", "GOPROXY=off")
 	out, err := cmd.CombinedOutput()
@@ -244,12 +252,22 @@ func (nr *nativeRunner) cleanup() {
 // "timeout" / "crash".
 func (nr *nativeRunner) run(cases []nativeCase, perCase time.Duration) map[string]*nativeResult {
 	results := map[string]*nativeResult{}
+	if nr.race && len(cases) > 1 {
+		// one process per case so that a race report can be attributed
+		for _, c := range cases {
+			for k, v := range nr.run([]nativeCase{c}, perCase) {
+				results[k] = v
+			}
+		}
+		return results
+	}
 	remaining := cases
 	round := 0
 	for len(remaining) > 0 {
 		round++
-		in := filepath.Join(nr.workDir, fmt.Sprintf("in%d.json", round))
-		out := filepath.Join(nr.workDir, fmt.Sprintf("out%d.jsonl", round))
+		nr.seq++
+		in := filepath.Join(nr.workDir, fmt.Sprintf("in%d.json", nr.seq))
+		out := filepath.Join(nr.workDir, fmt.Sprintf("out%d.jsonl", nr.seq))
 		data, _ := json.Marshal(remaining)
 		os.WriteFile(in, data, 0o644)
 		cmd := exec.Command(nr.bin, "-test.run", "^TestVerifReplay$", "-test.count=1", "-test.timeout=0")
@@ -308,6 +326,17 @@ func (nr *nativeRunner) run(cases []nativeCase, perCase time.Duration) map[strin
 				finished[r.ID] = true
 			}
 			f.Close()
+		}
+		if os.Getenv("VERIF_DEBUG_NATIVE") != "" {
+			fmt.Fprintln(os.Stderr, "NATIVE OUTPUT:", tail(outBuf.String(), 1500))
+		}
+		if nr.race && strings.Contains(outBuf.String(), "WARNING: DATA RACE") {
+			for _, c := range remaining {
+				if r, ok := results[c.ID]; ok {
+					r.Status = "race"
+					r.Msg = trim(outBuf.String(), 1500)
+				}
+			}
 		}
 		var next []nativeCase
 		culprit := ""
